@@ -1,7 +1,7 @@
 META = {
     "level": "model_checking",
     "technique": "TLA+ model of the client connection lifecycle (key-exchange packets as Transport.run() accepts them, _verify_key, initial_kex_done, the auth_* guard, the point where an armed request is transmitted) under an arbitrary peer, composed with the host-key decision of Transport.connect(hostkey=) and SSHClient.connect (known_hosts lookup by host / [host]:port, hashed entries, system-before-user tables, key-type preference, missing-host-key policies, a second connection through the same SSHClient object, the gss_kex / gss_auth arguments against a peer that does no GSS) (HostKeyGate.tla), model-checked by TLC with mutated models; TLC enumerates the decision table, every case is rendered to known_hosts files / arguments and run as a real connection over netsched against a real server Transport whose tap keeps every decrypted payload; auth_* calls are made at every lifecycle point with the handshake frozen by the link; all observations are judged by TLC (HostKeyGate_Trace.tla)",
-    "text": "TLC checks that a credential leaves the client only encrypted, after a verified host-key signature and completed initial key exchange, never as the delayed effect of an authentication attempt made earlier, never to a server whose key differs from the one given / known, and to an unknown server only after the policy accepted it; six mutated models (hashed names cached per salt across lookups, no kex guard, no kex guard and no expected-packet enforcement, type-only key comparison, fallback to password after a merely requested GSS key exchange, policy skipped) break it. The TLC-enumerated table (known_hosts entries x port form x policy x server key set x expected key) and seeded larger configurations are executed with real SSHClient / Transport.connect calls; every auth_* method of Transport and ServiceRequestingTransport is called before start, at four frozen mid-handshake points, in the open session, after local / peer close and after a handshake whose host-key signature was corrupted in transit; the server-side tap (USERAUTH_REQUEST / INFO_RESPONSE payloads), the wire log (plaintext packets, secret strings) and the policy's view are validated by TLC",
+    "text": "TLC checks that a credential leaves the client only encrypted, after a verified host-key signature and completed initial key exchange, never as the delayed effect of an authentication attempt made earlier, never to a server whose key differs from the one given / known, and to an unknown server only after the policy accepted it; seven mutated models (hashed names cached per salt across lookups, known_hosts lookups remembered across table changes, no kex guard, no kex guard and no expected-packet enforcement, type-only key comparison, fallback to password after a merely requested GSS key exchange, policy skipped) break it. The TLC-enumerated table (known_hosts entries x port form x policy x server key set x expected key) and seeded larger configurations are executed with real SSHClient / Transport.connect calls; every auth_* method of Transport and ServiceRequestingTransport is called before start, at four frozen mid-handshake points, in the open session, after local / peer close and after a handshake whose host-key signature was corrupted in transit; the server-side tap (USERAUTH_REQUEST / INFO_RESPONSE payloads), the wire log (plaintext packets, secret strings) and the policy's view are validated by TLC",
     "note": "trusted: TLC, netsched link + payload tap, the renderer that writes known_hosts lines (hashed names computed with hmac-sha1 independently of paramiko), the bundled test keys standing for the model's key identities. Reading of the lifecycle quantifier: an auth_* call made before the initial key exchange completed must not lead to a credential being transmitted, even later (the literal 'only after' is also checked); auth-protocol messages without a credential (SERVICE_REQUEST, method none) sent to a server that must be refused are reported as conformance only. GSS-API methods are only exercised at points where they must be refused; re-keying is not a lifecycle point here.",
 }
 import random
@@ -18,7 +18,7 @@ def consts(**kw):
          "Methods": {"password", "publickey", "interactive"},
          "GuardKex": True, "EnforceExpected": True, "CompareFullKey": True, "AskPolicy": True,
          "ConGss": set(GSS), "SshGss": {"none"}, "GssFallback": False,
-         "HashCachedPerSalt": False, "SeqTargets": "@{}", "SeqKeyTypes": {"ed"}}
+         "HashCachedPerSalt": False, "LookupCached": False, "SeqTargets": "@{}", "SeqKeyTypes": {"ed"}}
     d.update(kw)
     return d
 
@@ -45,7 +45,7 @@ def random_cfg(rnd):
     if rnd.random() < 0.2:
         return {"api": "connect", "expect": rnd.choice([dict(cl.NOKEY)] + [K(t, i) for t in types for i in (1, 2)]),
                 "sys": [], "usr": [], "policy": "Reject", "port": "default", "server": server,
-                "gss": rnd.choice(GSS), "prev": []}
+                "gss": rnd.choice(GSS), "prev": [], "loaded": True}
     ents = []
     for _ in range(rnd.choice([0, 1, 1, 2, 2, 3, 4])):
         ents.append({"name": rnd.choice(["h", "h", "[h]:p", "[h]:p", "other"]), "hashed": rnd.random() < 0.4,
@@ -61,7 +61,7 @@ def random_cfg(rnd):
         (sys_ if tab == "sys" else usr).append(e)
     return {"api": "sshclient", "expect": dict(cl.NOKEY), "sys": sys_, "usr": usr, "policy": rnd.choice(POLICIES),
             "port": rnd.choice(["default", "other"]), "server": server,
-            "gss": rnd.choice(["none", "none", "kex", "auth", "both"]), "prev": []}
+            "gss": rnd.choice(["none", "none", "kex", "auth", "both"]), "prev": [], "loaded": True}
 
 
 def run(c):
@@ -82,6 +82,9 @@ def run(c):
                  expect="Gate", cfg=cfg_text(constants=consts(Apis={"connect"}, GssFallback=True), invariants=["Gate"])),
             dict(name="sensitivity: hashed known_hosts names cached per salt across lookups of one SSHClient", module="HostKeyGate",
                  expect="Gate", cfg=cfg_text(constants=consts(Apis={"sshclient"}, MaxEntries=0, HashCachedPerSalt=True, **seq),
+                                             invariants=["Gate"])),
+            dict(name="sensitivity: SSHClient remembers known_hosts lookups across table changes", module="HostKeyGate",
+                 expect="Gate", cfg=cfg_text(constants=consts(Apis={"sshclient"}, MaxEntries=0, LookupCached=True, **seq),
                                              invariants=["Gate"])),
             dict(name="sensitivity: SSHClient skips the missing-host-key policy", module="HostKeyGate", expect="Gate",
                  cfg=cfg_text(constants=consts(Apis={"sshclient"}, MaxEntries=0, AskPolicy=False), invariants=["Gate"])),
@@ -116,7 +119,7 @@ def run(c):
         # ---- the callers against a handshake whose host-key signature does not verify
         K = lambda t, i: {"t": t, "id": i}
         base = {"api": "sshclient", "expect": dict(cl.NOKEY), "sys": [], "usr": [], "policy": "Reject", "port": "default",
-                "server": [K("ed", 1)], "gss": "none", "prev": []}
+                "server": [K("ed", 1)], "gss": "none", "prev": [], "loaded": True}
         for upd in ({"api": "connect", "expect": K("ed", 1)}, {"api": "connect"}, {"usr": [{"name": "h", "hashed": False, "key": K("ed", 1)}]},
                     {"policy": "AutoAdd"}, {"policy": "CustomAccept", "port": "other"}):
             cfg = dict(base, **upd)
@@ -126,7 +129,7 @@ def run(c):
             c.case(key=("badsig", repr(cfg)))
         # ---- lifecycle: every auth method at every point
         raw = {"api": "raw", "expect": dict(cl.NOKEY), "sys": [], "usr": [], "policy": "Reject", "port": "default",
-               "server": [{"t": "ed", "id": 1}], "gss": "none", "prev": []}
+               "server": [{"t": "ed", "id": 1}], "gss": "none", "prev": [], "loaded": True}
         for cls in ("Transport", "ServiceRequestingTransport"):
             for point in cl.POINTS:
                 for m in cl.METHODS:
